@@ -322,7 +322,8 @@ class Body:
             if sd and sd[2] == "call" and transparent:
                 t = sd[3]
                 nm = callee_names(t["func"])
-                if nm and nm[0] in TRANSPARENT_CALLS and t["args"] and t["args"][0].get("k") in ("copy", "move"):
+                full_range = bool(nm) and nm[0] in ("std::ops::Index::index", "std::ops::IndexMut::index_mut") and len(t.get("argtys", [])) == 2 and t["argtys"][1] == "std::ops::RangeFull"
+                if nm and (nm[0] in TRANSPARENT_CALLS or full_range) and t["args"] and t["args"][0].get("k") in ("copy", "move"):
                     src = t["args"][0]["pl"]
                     l = src["l"]
                     np = [proj_key(e) for e in src["p"]]
